@@ -177,7 +177,7 @@ def finish(ctx: Ctx, *, explanation: str, rule_text: str, not_decided: list[str]
             "functions_in_program": sum(len(m.all_functions) for m in ctx.prog.modules.values()),
             "generators_in_program": sum(1 for m in ctx.prog.modules.values() for f in m.all_functions if f.is_generator),
             "not_decided": not_decided,
-            "normalisation": {k: getattr(ctx.prog, k, 0) for k in ("locals_recovered", "helpers_inlined", "tuple_assigns_split", "negations_distributed", "common_tails_sunk", "fill_loops_folded", "adjacent_temps_inlined", "spellings_restored",
+            "normalisation": {k: getattr(ctx.prog, k, 0) for k in ("locals_recovered", "helpers_inlined", "tuple_assigns_split", "negations_distributed", "common_tails_sunk", "display_loops_unrolled", "fill_loops_folded", "adjacent_temps_inlined", "spellings_restored",
                                                                       "else_flattened", "temps_inlined", "increment_stores_restored")},
             "notes": ctx.notes,
             "fixed_entries": fixed,
